@@ -20,4 +20,5 @@ INVARIANT CancelReturnsCtx
 INVARIANT CancelCloses
 INVARIANT CancelPacketOnce
 INVARIANT NoOrphans
+INVARIANT NoInfoRace
 CHECK_DEADLOCK FALSE
